@@ -114,9 +114,19 @@ func partitionStatesByAction(t *Tables, ruleClass []int, numStates int) ([]int, 
 	partition := make([]int, numStates)
 	partitions := container.NewIntSliceSet()
 
+	// States carrying a state marker (e.g. .recoveryScope) behave differently at runtime from
+	// unmarked ones, so the markers are part of the signature.
+	stateMarkers := make([][]int, numStates)
+	for m, marker := range t.Markers {
+		for _, s := range marker.States {
+			stateMarkers[s] = append(stateMarkers[s], -1-m)
+		}
+	}
+
 	// Create the initial partitions
 	for i := 0; i < numStates; i++ {
 		sig := stateSignature(i)
+		sig = append(sig[:len(sig):len(sig)], stateMarkers[i]...)
 		if slices.Contains(t.FinalStates, i) {
 			// The parser stops as soon as it enters a final state, whatever its action is, so a final
 			// state can only be merged with other final states.
